@@ -11,6 +11,8 @@ class FGen:
         self.m = m or G(g)
         self.cg, self.reach = self.m.cg, self.m.reach()
         self.n = 0
+        self.naming = "plain"
+        self._per_base = {}
         self.preds = preds or ["before", "after", "inside", "direct_child", "same_position", "different_position", "nth", "level", "consecutive"]
         self.allow_numeric = allow_numeric
         self.smt_rich = smt_rich
@@ -20,6 +22,12 @@ class FGen:
     # -- helpers -------------------------------------------------------------
     def fresh(self, base="v"):
         self.n += 1
+        if self.naming == "underscore":
+            # v, v_0, v_1, ...: exactly the names ISLa's own fresh-name generator would pick next, already taken by
+            # variables bound further in (capture bait for renaming / closing-over code)
+            k = self._per_base.get(base, 0)
+            self._per_base[base] = k + 1
+            return base if k == 0 else f"{base}_{k - 1}"
         return f"{base}{self.n}"
 
     def _numeral(self, nt):
